@@ -112,6 +112,7 @@ type FS struct {
 	Enforce   bool // enforce permission bits (caller is not root)
 	Fired     map[string]int
 	Umask     fs.FileMode
+	Gate      func() // called at the entry of every os-level operation, before the lock is taken (interleaving of "processes")
 	tmpCtr    int
 }
 
@@ -346,6 +347,14 @@ func (f *FS) record(rec OpRecord) {
 		rec.At = f.now()
 		f.Log = append(f.Log, rec)
 	}
+}
+
+// enter is the first thing every os-level entry point does.
+func (f *FS) enter() {
+	if g := f.Gate; g != nil {
+		g()
+	}
+	f.mu.Lock()
 }
 
 // begin is called at the entry of every operation with the lock held. It returns the
